@@ -341,7 +341,7 @@ func pickSamples(out string) []string {
 	var res []string
 	for _, l := range strings.Split(out, "\n") {
 		i := strings.IndexByte(l, ' ')
-		if i < 2 || len(l) > 400 || len(l) < 40 {
+		if i < 2 || len(l) > 420 || len(l) < 140 {
 			continue
 		}
 		if k := l[1:i]; !seen[k] {
